@@ -101,6 +101,7 @@ class ScopeGen:
             out.append("{ %s }:" % ", ".join(forms))
         nwrap = rng.randint(0, self.max_wrappers)
         helpers: list[str] = []
+        let_layers: list[list[str]] = []
         for _ in range(nwrap):
             r = rng.random()
             if r < 0.6:
@@ -110,6 +111,7 @@ class ScopeGen:
                 out.append("let")
                 out.extend(lines)
                 out.append("in")
+                let_layers.append(list(lines))
             elif r < 0.85 and self.allow_with:
                 rr = rng.random()
 
@@ -190,6 +192,18 @@ class ScopeGen:
             body.append("    z = %s;" % zn)
             body.append("  };")
             with_probes = [["w", "y"], ["w", "z"]]
+        if let_layers and rng.random() < 0.2:
+            # a nested value with a let layer of its own that is spelled exactly like an enclosing layer (same names,
+            # same values): equal content, two scopes - whatever binds the names in between still wins over the outer one
+            layer = rng.choice(let_layers)
+            yn, zn = rng.sample(NAMES, 2)
+            body.append("  v = let")
+            body.extend("  " + ln for ln in layer)
+            body.append("  in {")
+            body.append("    y = %s;" % yn)
+            body.append("    z = %s;" % zn)
+            body.append("  };")
+            with_probes = with_probes + [["v", "y"], ["v", "z"]]
         deref: list[list[str]] = []
         if self.helpers and rng.random() < 0.7:
             # reach a helper set through a name and look at the reference inside it
@@ -199,7 +213,7 @@ class ScopeGen:
         if not probes:
             body.append("  x1 = n1;")
             probes.append(["x1"])
-        rng.shuffle(body) if rng.random() < 0.3 and not any(l.startswith("  m = ") or l.startswith("  w = ") or l.startswith("    ") or l.startswith("      ") or l == "  };" for l in body) else None
+        rng.shuffle(body) if rng.random() < 0.3 and not any(l.startswith("  m = ") or l.startswith("  w = ") or l.startswith("  v = ") or l == "  in {" or l.startswith("    ") or l.startswith("      ") or l == "  };" for l in body) else None
         text = "\n".join(out)
         if out:
             text += "\n"
